@@ -128,8 +128,19 @@ def _race_reports(err):
 
 def _race_summary(rep):
     """Top library frames of the two conflicting accesses."""
-    fr = re.findall(r"^\s+(github\.com/moorara/algo/[^\s(]+|hash/[^\s(]+|math/rand[^\s(]*)", rep, re.M)
-    return fr[:6]
+    out, head, frame = [], None, None
+    for line in rep.split("\n") + [""]:
+        if re.match(r"^(Read|Write|Previous read|Previous write|Atomic|Previous atomic)\b.* by ", line):
+            head, frame = line.split(" by ")[0], None
+        elif head and frame is None:
+            m = re.match(r"^\s+(github\.com/moorara/algo/\S+?)\(", line)
+            if m:
+                frame = m.group(1)
+                out.append("%s ... in %s" % (head, frame))
+            elif not line.strip():
+                out.append("%s ... in ?" % head)
+                head = None
+    return out[:4]
 
 
 def _run_race(exe, args, tag, timeout):
@@ -146,9 +157,13 @@ def _failing(rc, out, err):
 
 
 def _last_case(out):
-    cases = [l for l in out.split("\n") if l.startswith("race ")]
-    bad = [l for l in cases if "DIFF" in l or "HANG" in l]
-    return (bad or cases or [""])[-1]
+    """The failing round: one with DIFF/HANG results, else the round that was running when the process stopped."""
+    lines = out.split("\n")
+    bad = [l for l in lines if l.startswith("race ") and ("DIFF" in l or "HANG" in l)]
+    if bad:
+        return bad[-1]
+    started = [l[8:].replace(" -> ok", "") for l in lines if l.startswith("# START race ")]
+    return started[-1] if started else ""
 
 
 def _shrink(exe, case, err):
@@ -207,7 +222,7 @@ def main(run):
         run.finish()
         return 2
     batches = []
-    for cf in sorted(glob.glob(os.path.join(vlib.ROOT, "corpus", PROP, "*.case"))):
+    for cf in ([] if os.environ.get("VERIF_C20_NO_CORPUS") else sorted(glob.glob(os.path.join(vlib.ROOT, "corpus", PROP, "*.case")))):  # (env: development only, to calibrate the generated search alone)
         batches.append(("corpus-" + os.path.basename(cf)[:-5], "--replay " + cf, 600))
     if tier == "thorough":
         batches.append(("race", "-mode race -tier thorough -budget 420", 1200))
@@ -240,7 +255,7 @@ def main(run):
             return 2
         case = _last_case(out)
         if tag.startswith("corpus-") and not case:
-            case = open(args.split()[-1]).read().strip().split("\n")[0]
+            case = ([l for l in open(args.split()[-1]).read().split("\n") if l.startswith("race ")] or [""])[0]
         case, err2 = _shrink(exe, case, err)
         reps = _race_reports(err2) or _race_reports(err)
         diffs = [l[2:] for l in out.split("\n") if l.startswith("# DIFF")][:5]
